@@ -246,13 +246,21 @@ def coproc_accepted(S, f, kind, is2):
     """Coproc_Accepted(cp, instr) for cp not in {10, 11}: returns (undefined Bool, unpredictable Bool).
     kind: 'cdp' 'mcr' 'mrc' 'mcrr' 'mrrc' 'ldc' 'stc'; is2: instr<31:28> == '1111'.
     Hyp traps (HCPTR/HSTR/HCR.TIDCP) need the Virtualization Extensions and are not modelled (virt = False)."""
-    assert not S.have_virt
     cp = f['coproc']
     user = S.is_mode('usr')
     # ---- cp0..cp13 ----
     sh = zx(cp, 32)
     ns_denied = z3.And(z3.Not(S.is_secure()), bits(z3.LShR(S.sys['nsacr'], sh), 0, 0) == 0) if S.have_sec else FALSE
     acc = bits(z3.LShR(S.sys['cpacr'], sh * 2), 1, 0)
+    if S.have_virt:
+        # Virtualization Extensions: the NSACR check applies in every Non-secure mode incl. Hyp; the CPACR check is
+        # skipped in Hyp mode.  Outside the claim (returned as 'unpredictable' = excluded): cp14/cp15 (HSTR / HCR
+        # traps) and a set HCPTR.TCP<cp> bit (Hyp trap with an HSR syndrome)
+        hyp = S.is_mode('hyp')
+        trapped = bits(z3.LShR(S.sys['hcptr'], sh), 0, 0) == 1
+        und = z3.Or(ns_denied, z3.And(z3.Not(hyp), z3.Or(acc == 0, z3.And(acc == 1, user))))
+        unp = z3.Or(z3.And(z3.Not(ns_denied), z3.Not(hyp), acc == 2), z3.UGE(cp, 14), z3.And(z3.Not(und), trapped))
+        return und, unp
     und_gen = z3.Or(ns_denied, acc == 0, z3.And(acc == 1, user))
     unp_gen = z3.And(z3.Not(ns_denied), acc == 2)
     # ---- cp14 ----
